@@ -38,6 +38,11 @@ CHECKS = {
             'Random histories with tie-heavy priorities and frequent re-adds/removes are applied to HeapPriorityQueue, SortedPriorityQueue and a reference (min over live (effective priority, arrival counter)); every return value/exception type and len is compared at each step and both queues are drained at the end. Because the sorted back end only splits into sub-lists above ~22000 entries, histories are run (a) with the BarrelList split factor scaled down so splitting happens with ~10 entries, (b) at the real factor with 23k-60k bulk entries (6 cases in quick, 320 in thorough), and (c) the BarrelList itself is compared with list for insert/append/extend/pop/getitem/index/bisect.insort histories.',
             'Scaling relies on the tuning constant BarrelList._size_factor (falls back to real scale if absent); reference model trusted; custom priority_key not generated.',
             'DESIGN.md section 2, C10'),
+    'C20': ('exploration',
+            'model-based testing: Hypothesis-generated add/update streams (random skewed and adversarial bucket plans) against an exact Counter; count bounds and view consistency checked after every call',
+            'Random thresholds and streams of up to 600 (quick) / 3000 (thorough) additions through add, update(iterable), update(mapping), update(**counts) and mixed forms, including bucket-aligned adversarial plans (groups of w//m fresh keys seen m times, then fresh singletons) that keep the most keys alive. An exact collections.Counter is kept beside the counter: total, no over-count, under-count <= floor(total/floor(1/threshold)), presence, common+uncommon == total, items/keys/values/elements/most_common(n) consistency and descending order, and the size clause are checked (all keys around every compaction boundary and every 7th call, touched keys otherwise). The size clause len <= 2/threshold is genuinely false for lossy counting (known finding, replayed on every run); it is only excused while the tracked key set is exactly what textbook lossy counting tracks for the stream, anything else (mis-timed or skipped compaction) is still a violation.',
+            'Trusts collections.Counter and a 12-line textbook lossy-counting reference (used only to classify the known size finding).',
+            'DESIGN.md section 2, C20'),
 }
 
 NOT_YET = 'check not built yet in this revision of /verif (work in progress; see DESIGN.md section 8)'
